@@ -341,7 +341,7 @@ func TestC13(t *testing.T) {
 	s := &state{t: t, r: r, pool: sectest.NewPool(3)}
 	n := r.Pick(6000, 120000)
 	if raceOnly {
-		n = r.Pick(600, 4000)
+		n = r.Pick(600, 12000)
 	}
 
 	verifhook.Set(hookConsume, func(_ string, arg any) {
@@ -412,14 +412,14 @@ func TestC13(t *testing.T) {
 	r.Require("msgs_with_foreign_key", q(4000, 80000))
 	r.Require("msgs_with_foreign_suffix", q(5000, 100000))
 	r.Require("protocols_at_cap", q(40, 800))
-	r.Require("addresses_at_connected_cap", q(40, 800))
+	r.Require("addresses_at_connected_cap", q(30, 600))
 	r.Require("after_disconnect_trimmed_to_20", q(300, 6000))
 	r.Require("retained_checks_with_addresses", q(200, 4000))
 	r.Require("final_expiry_checks_with_addresses", q(1200, 24000))
 	r.Require("final_expiry_checks_with_addresses_raced", q(400, 8000))
 	r.Require("identify_wait_released_by_timeout", q(60, 1200))
 	r.Require("identify_wait_released_promptly", q(4000, 80000))
-	r.Require("identify_completed_after_last_disconnect", q(200, 4000))
+	r.Require("identify_completed_after_last_disconnect", q(40, 800))
 	r.Require("close_triggered_by_protocols_event", q(60, 1200))
 	r.Require("closed_at_chunk_boundary", q(30, 600))
 	r.Require("keyless_key_stored_again", q(300, 6000))
